@@ -16,6 +16,8 @@ const (
 	zzEvDamageToClient // one byte of message k (server -> client) is replaced
 	zzEvDamageToServer
 	zzEvPauseClient // the user pauses the transfer (stop/continue question) just before the k-th server message
+	zzEvDropToClient // message k (server -> client) is lost as a whole
+	zzEvDropToServer
 )
 
 type zzSess struct {
@@ -25,6 +27,8 @@ type zzSess struct {
 	term     *zzCap5
 	event    int
 	at       int // message index (counted per direction) at which the event happens
+	at2      int // second pause (C18, PAUSES=2); -1 none
+	everPaused bool
 	nToC     int
 	nToS     int
 	fired    bool
@@ -57,6 +61,7 @@ func (s *zzSess) fire() {
 		if t := s.f.transfer.Load(); t != nil {
 			t.pauseTransferringFiles()
 			s.paused = t
+			s.everPaused = true
 		}
 	}
 }
@@ -96,6 +101,11 @@ func (w *zzSessToClient) Write(p []byte) (int, error) {
 			s.fired = true
 			c = zzDamage(s, p)
 		}
+	case zzEvDropToClient:
+		if idx == s.at {
+			s.fired = true
+			return len(p), nil
+		}
 	}
 	s.toClient <- c
 	return len(p), nil
@@ -119,6 +129,11 @@ func (w *zzSessToServer) Write(p []byte) (int, error) {
 			s.fired = true
 			c = zzDamage(s, p)
 		}
+	case zzEvDropToServer:
+		if idx == s.at {
+			s.fired = true
+			return len(p), nil
+		}
 	}
 	s.V.addReceivedData(c, false)
 	return len(p), nil
@@ -133,6 +148,7 @@ func (r *zzSessReader) Read(p []byte) (int, error) {
 }
 
 type zzSessResult struct {
+	old []byte // previous content of the destination name, if any
 	serverDone  bool
 	serverErr   error
 	clientClear bool
@@ -162,16 +178,34 @@ func zzRunSession(upload bool, event, maxAt int, timeout int) (*zzSess, *zzSessR
 	res := &zzSessResult{content: content, root: root, name: "a"}
 	res.hadOld = verifNondetBool()
 	if res.hadOld {
-		verifFSAddFile(root+"/a", []byte("old"))
+		old := []byte("old")
+		if verifBoundOr("OLDPREFIX", 0) == 2 {
+			// arbitrary previous content of 1..n+1 bytes: equal, prefix, longer, diverging at any offset
+			k := verifNondetRange(1, n+1)
+			old = make([]byte, k)
+			for i := range old {
+				old[i] = verifNondetByte()
+			}
+		} else if verifBoundOr("OLDPREFIX", 0) == 1 && n > 0 {
+			// what an interrupted earlier transfer of the same file left behind: a proper or full prefix of the source
+			k := verifNondetRange(1, n)
+			old = append([]byte{}, content[:k]...)
+		}
+		verifFSAddFile(root+"/a", old)
+		res.old = old
 	}
 	verifFSBegin()
 	s := &zzSess{toClient: make(chan []byte, 400), term: &zzCap5{}, event: event, pauseTicks: zzPauseTicks}
 	if event != zzEvNone {
 		lo := 0
-		if event == zzEvSilenceToServer || event == zzEvDamageToServer {
+		if event == zzEvSilenceToServer || event == zzEvDamageToServer || event == zzEvDropToServer {
 			lo = 1 // the handshake has begun: the client's ACT (its message 0) has reached the server
 		}
 		s.at = verifNondetRange(lo, maxAt)
+		s.at2 = -1
+		if event == zzEvPauseClient && verifBound("PAUSES") >= 2 {
+			s.at2 = verifNondetRange(s.at, maxAt+1) // a second pause/continue cycle later in the same transfer (maxAt+1: none)
+		}
 	}
 	if event == zzEvDamageToClient || event == zzEvDamageToServer {
 		s.dmgPos = verifNondetRange(0, 12)
@@ -199,6 +233,7 @@ func zzRunSession(upload bool, event, maxAt int, timeout int) (*zzSess, *zzSessR
 		args.Quiet = true
 		args.Overwrite = res.overwrite
 		args.Binary = binary
+		args.Compress = compressType(verifBound("COMPRESS")) // 0 auto, 1 yes, 2 no
 		if binary {
 			args.Escape = verifNondetBool()
 			s.escapeAll = args.Escape
@@ -218,6 +253,7 @@ func zzRunSession(upload bool, event, maxAt int, timeout int) (*zzSess, *zzSessR
 		args.Quiet = true
 		args.Overwrite = res.overwrite
 		args.Binary = binary
+		args.Compress = compressType(verifBound("COMPRESS")) // 0 auto, 1 yes, 2 no
 		files := []*sourceFile{{PathID: 0, AbsPath: sroot + "/a", RelPath: []string{"a"}, Size: int64(n)}}
 		go func() {
 			res.serverErr = sendFiles(s.V, files, args, tmuxModeType(0), 0)
@@ -239,6 +275,10 @@ func zzRunSession(upload bool, event, maxAt int, timeout int) (*zzSess, *zzSessR
 			s.paused.resumeTransferringFiles() // the user chose "continue"
 			resumed = true
 			verifQuiesce()
+			if s.at2 > s.at {
+				s.at, s.at2 = s.at2, -1
+				s.fired, s.paused, resumed = false, nil, false
+			}
 		}
 	}
 	resumeIfPaused()
@@ -281,6 +321,19 @@ func zzH_C10_session() {
 		verifReach("completed-before-stop")
 		return
 	}
+	// each side reports that it was stopped (or success); the server's report is its return value
+	if res.serverErr != nil {
+		msg := res.serverErr.Error()
+		te, isT := res.serverErr.(*trzszError)
+		if isT {
+			msg = te.message
+		}
+		verifAssert(len(msg) >= 7 && msg[:7] == "Stopped", "the server side reports something other than 'Stopped…' after a stop")
+		if event == zzEvStopDeleteClient {
+			verifAssert(len(msg) >= 19 && msg[:19] == "Stopped and deleted", "the server side was not told that the stop was a stop-and-delete")
+		}
+		verifReach("server-reports-stopped")
+	}
 	// never success for an incomplete file
 	if res.serverErr == nil && verifFSKind(res.root+"/"+res.name) == 1 {
 		verifAssert(zzSessFileIntact(res), "success reported although the file is incomplete")
@@ -289,6 +342,14 @@ func zzH_C10_session() {
 	if res.hadOld && !res.overwrite {
 		old := verifFSContent(res.root + "/a")
 		verifAssert(string(old) == "old", "stop removed or modified a pre-existing file")
+	}
+	if event == zzEvStopDeleteClient && destOnServer && res.serverErr != nil {
+		// the server, told "Stopped and deleted", removes what it created or had begun to replace
+		if verifFSKind(res.root+"/"+res.name) == 1 {
+			untouchedOld := res.hadOld && res.overwrite && string(verifFSContent(res.root+"/"+res.name)) == "old"
+			verifAssert(untouchedOld || zzSessFileIntact(res), "the server left a partial file behind after the client's stop-and-delete")
+		}
+		verifReach("server-stop-delete")
 	}
 	if event == zzEvStopDeleteClient && !destOnServer {
 		// the stopping client removes what it created, unless the file had already been completed and verified
@@ -329,6 +390,9 @@ func zzH_C11_session() {
 func zzH_C02_session() {
 	upload := verifNondetBool()
 	event := verifNondetRange(zzEvDamageToClient, zzEvDamageToServer)
+	if verifBoundOr("DROP", 0) == 1 {
+		event = verifNondetRange(zzEvDropToClient, zzEvDropToServer) // a whole message is lost instead
+	}
 	s, res := zzRunSession(upload, event, verifBound("MSGS"), 1)
 	verifAssert(res.serverDone, "the server side did not return")
 	verifAssert(res.clientClear, "the client side did not return")
@@ -346,7 +410,7 @@ func zzH_C02_session() {
 	}
 	if res.hadOld && !res.overwrite {
 		old := verifFSContent(res.root + "/a")
-		verifAssert(string(old) == "old", "a pre-existing file was modified")
+		verifAssert(string(old) == string(res.old), "a pre-existing file was modified")
 	}
 }
 
@@ -373,7 +437,7 @@ func zzH_C18_session() {
 	}
 	verifAssert(res.serverDone, "the server side hangs after a pause/resume")
 	verifAssert(res.clientClear, "the client side hangs after a pause/resume")
-	if s.paused == nil || kind != 2 {
+	if !s.everPaused || kind != 2 {
 		verifAssert(res.serverErr == nil, "transfer failed although the pause was shorter than the timeout")
 		verifAssert(zzSessFileIntact(res), "file differs after a short pause")
 		verifReach("short-pause-ok")
